@@ -14,7 +14,41 @@ FIXED = ["v, [1, .., 2]", "v, [..]", "v, [.., 9]", "v, [1, 2]", "v, [1]", "v, [_
 
 
 def squeeze(s):
-    return re.sub(r"\s+", "", s)
+    """source text up to the spacing BETWEEN tokens (the stringified form of tokens puts spaces where the source has none);
+    the contents of string and char literals are kept exactly: spacing inside a literal is part of what was written"""
+    out = []
+    i, n = 0, len(s)
+    while i < n:
+        ch = s[i]
+        if ch == '"':
+            j = i + 1
+            while j < n and s[j] != '"':
+                j += 2 if s[j] == "\\" else 1
+            out.append(s[i:j + 1])
+            i = j + 1
+            continue
+        if ch == "r" and s[i + 1:i + 2] in ('"', "#") and (i == 0 or not (s[i - 1].isalnum() or s[i - 1] == "_")):
+            j = i + 1
+            h = 0
+            while j < n and s[j] == "#":
+                h += 1
+                j += 1
+            if j < n and s[j] == '"':
+                end = s.find('"' + "#" * h, j + 1)
+                end = n if end < 0 else end + 1 + h
+                out.append(s[i:end])
+                i = end
+                continue
+        if ch == "'" and i + 2 < n and (s[i + 2] == "'" or s[i + 1] == "\\"):
+            j = s.find("'", i + 2) if s[i + 1] == "\\" else i + 2
+            if j > 0:
+                out.append(s[i:j + 1])
+                i = j + 1
+                continue
+        if not ch.isspace():
+            out.append(ch)
+        i += 1
+    return "".join(out)
 
 
 def node_claims(rec):
